@@ -510,6 +510,13 @@ def compare(ctx, real, hist, tag):
             ctx.count('hook_only_prefix_probed')
         # a scoped not-found handler whose fate is unspecified (it lay under a removed prefix) answered: the status says nothing
         unspec_answered = any(e[0] == 'scoped-404' and e[1] in real.unspec_ids for e in real.log)
+        # ... and so does one that merely lies on the way (it may be the deepest hook position of the probe and thereby decide
+        # whether an outer scoped handler is asked at all)
+        unspec_on_the_way = any(path.startswith(h.split('<')[0].rstrip('/') or '/') for h in real.unspec)
+        if unspec_on_the_way and ([e for e in l1 if e[0] == 'scoped-404'] != [e for e in l2 if e[0] == 'scoped-404'] or r1.code != r2.code) \
+                and not [e for e in l2 if e[0] == 'handler'] and not [e for e in l1 if e[0] == 'handler']:
+            ctx.count('probes_answered_by_a_handler_of_unspecified_fate')
+            continue
         if unspec_answered:
             ctx.count('probes_answered_by_a_handler_of_unspecified_fate')
         if (r1.code if not unspec_answered else r2.code, l1) != (r2.code, l2):
